@@ -1137,8 +1137,12 @@ func (g *GoFakeS3) ensureBucketExists(bucket string) error {
 	}
 	if !exists && g.autoBucket {
 		if err := g.storage.CreateBucket(bucket); err != nil {
-			g.log.Print(LogErr, "autobucket create failed:", err)
-			return ResourceError(ErrNoSuchBucket, bucket)
+			// Another request may have created the bucket between the check
+			// above and this call: then it exists, which is all that is asked.
+			if exists, _ := g.storage.BucketExists(bucket); !exists {
+				g.log.Print(LogErr, "autobucket create failed:", err)
+				return ResourceError(ErrNoSuchBucket, bucket)
+			}
 		}
 	} else if !exists {
 		return ResourceError(ErrNoSuchBucket, bucket)
